@@ -31,11 +31,11 @@ def _sel(x, n):
 
 
 def _run(chunks, op):
-    if chunks:
-        # the same operator object first serves a subscription that fails after its first chunk (retry history): buffers must not survive it
-        D.failing_src(chunks[:1]).pipe(op).subscribe(on_next=lambda i: None, on_error=lambda e: None)
+    # retry history: the same observable first serves a subscription that fails at the rx level after its first chunk: buffers must not survive it
+    obs_ = D.flaky_src(chunks, 1).pipe(op)
+    obs_.subscribe(on_next=lambda i: None, on_error=lambda e: None)
     out = []
-    D.src(chunks).pipe(op).subscribe(on_next=out.append, on_error=lambda e: out.append(('ERR', repr(e))), on_completed=lambda: out.append('END'))
+    obs_.subscribe(on_next=out.append, on_error=lambda e: out.append(('ERR', repr(e))), on_completed=lambda: out.append('END'))
     return out
 
 
